@@ -27,7 +27,7 @@ var regress = []struct {
 func TestRegress(t *testing.T) {
 	for _, c := range regress {
 		t.Run(c.name, func(t *testing.T) {
-			r := build(c.tb)
+			r := build(c.tb, nil)
 			for _, p := range c.probes {
 				if msg := checkProbe(r, c.tb, p[0], p[1]); msg != "" {
 					t.Errorf("%s", msg)
